@@ -43,7 +43,7 @@ def all_jobs(harness, grammars, maxlen_by_nterm, extra=None, split_from=3):
     return jobs
 
 
-NEAR_BASES = {"G1": 3, "G2": 2, "G3": 3, "G4": 2, "G5": 3, "G6": 2, "G7": 3, "G8": 2, "G9": 3, "G10": 4, "G11": 2, "G12": 4, "G13": 4, "G14": 3, "G15": 4, "G16": 2, "G17": 2, "G18": 2, "G19": 4}
+NEAR_BASES = {"G1": 4, "G2": 2, "G3": 3, "G4": 2, "G5": 3, "G6": 2, "G7": 3, "G8": 2, "G9": 3, "G10": 4, "G11": 2, "G12": 4, "G13": 4, "G14": 3, "G15": 4, "G16": 2, "G17": 2, "G18": 2, "G19": 4, "G20": 3, "G21": 4, "G22": 4, "G23": 3, "G24": 4, "G25": 4, "G26": 1, "G27": 2}
 
 
 def near_jobs(harness, grammars, edits, extra=None):
@@ -57,19 +57,36 @@ def near_jobs(harness, grammars, edits, extra=None):
     return jobs
 
 
+def sg_jobs(prop, b):
+    """symbolic grammar family SG(R, L): one job per (number of rules, length of the first right-hand side)"""
+    sg = b.get("sg")
+    if not sg:
+        return []
+    jobs = []
+    for nr in range(1, sg["maxr"] + 1):
+        for l0 in range(0, sg["maxl"] + 1):
+            jobs.append({"harness": "hSG.c", "params": {"prop": prop, "maxr": sg["maxr"], "maxl": sg["maxl"], "maxlen": sg["maxlen"], "nrules": nr, "len0": l0},
+                         "weight": (4 ** sg["maxl"] * (5 if prop != 1 else 1)) ** nr, "validate_skip": False})
+    return jobs
+
+
+SG_RULE = "; symbolic grammar family SG(R, L): one state = one grammar of up to R rules over {S, A, a, b} with right-hand sides up to L symbols (for the tree properties also one of five translation shapes per rule) that yaep accepts, strict or not; inside the path every token sequence over {a, b} up to maxlen is parsed under lookahead 0, 1, 2 and compared with the oracle"
+
+
 def plan_C01(tier, seed):
     b = BOUNDS["C01"][tier]
     jobs = all_jobs("hC01.c", b["grammars"], b["all_len"])
     jobs += all_jobs("hC01.c", b["text_grammars"], b["text_len"], {"via_text": 1})
     jobs += all_jobs("hC01.c", b["nonstrict_grammars"], b["text_len"], {"strict": 0})
     jobs += near_jobs("hC01.c", b["near_grammars"], b["near_edits"])
+    jobs += sg_jobs(1, b)
     wit = [{"harness": "hC01.c", "params": {"grammar": GIDX["G1"], "len": 2, "first": -1, "witness": 1}}]
     return {"jobs": jobs, "witness": wit, "bounds": b,
-            "rule": "one state = one complete path of the harness = (catalogue grammar, token-kind sequence of the stated length, one of 24 configurations lookahead x one_parse x cost x recovery); token attributes are symbolic 64-bit values; the solver enumerates exactly the feasible sequences, every assertion is discharged per path",
+            "rule": "one state = one complete path of the harness = (catalogue grammar, token-kind sequence of the stated length, one of 24 configurations lookahead x one_parse x cost x recovery); token attributes are symbolic 64-bit values; the solver enumerates exactly the feasible sequences, every assertion is discharged per path" + SG_RULE,
             "assumptions": ["derivability oracle: naive least fixpoint over spans (spec/oracle.h), independent of yaep"]}
 
 
-def simple_plan(prop, harness, rule, assumptions, extra_params=None):
+def simple_plan(prop, harness, rule, assumptions, extra_params=None, sg_prop=None):
     def plan(tier, seed):
         b = BOUNDS[prop][tier]
         ep = dict(extra_params or {})
@@ -79,8 +96,10 @@ def simple_plan(prop, harness, rule, assumptions, extra_params=None):
         jobs = all_jobs(harness, b["grammars"], b["all_len"], ep)
         if "near_grammars" in b:
             jobs += near_jobs(harness, b["near_grammars"], b["near_edits"], ep)
+        if sg_prop:
+            jobs += sg_jobs(sg_prop, b)
         w = dict(ep); w.update({"grammar": GIDX[b["grammars"][0]], "len": 3, "first": -1, "witness": 1})
-        return {"jobs": jobs, "witness": [{"harness": harness, "params": w}], "bounds": b, "rule": rule, "assumptions": assumptions}
+        return {"jobs": jobs, "witness": [{"harness": harness, "params": w}], "bounds": b, "rule": rule + (SG_RULE if sg_prop else ""), "assumptions": assumptions}
     return plan
 
 
@@ -94,9 +113,10 @@ def plan_C10(tier, seed):
             jobs.append({"harness": "hC10.c", "params": {"family": 1, "nrules": nr, "len0": l0, "maxl": b["max_rhs"], "pool": b["pool"]}, "weight": (b["pool"] ** b["max_rhs"]) ** nr})
     jobs.append({"harness": "hC10.c", "params": {"family": 2}, "weight": 50})
     jobs.append({"harness": "hC10.c", "params": {"family": 3}, "weight": 5})
+    jobs.append({"harness": "hC10.c", "params": {"family": 4, "maxdepth": b.get("max_chain", 4)}, "weight": 5})
     wit = [{"harness": "hC10.c", "params": {"family": 3, "witness": 1}}]
     return {"jobs": jobs, "witness": wit, "bounds": b,
-            "rule": "one state = one grammar definition distinguished by yaep_read_grammar: family 0 = up to max_terms terminals with names from {a,b,c,error,$S,$eof} and codes from {INT_MIN,-1,0,1,2,255,INT_MAX}, chosen lazily when yaep asks for them; family 1 = up to max_rules rules over {S,A,a,b[,B]} with right-hand sides up to max_rhs; family 2 = one rule with abstract node or not, cost symbolic over all int, translation list of up to 3 symbolic non-negative ints; family 3 = one reserved/terminal/undeclared name as left-hand side or in a right-hand side of the first or a later rule; strict_p symbolic",
+            "rule": "one state = one grammar definition distinguished by yaep_read_grammar: family 0 = up to max_terms terminals with names from {a,b,c,error,$S,$eof} and codes from {INT_MIN,-1,0,1,2,255,INT_MAX}, chosen lazily when yaep asks for them; family 1 = up to max_rules rules over {S,A,a,b[,B]} with right-hand sides up to max_rhs; family 2 = one rule with abstract node or not, cost symbolic over all int, translation list of up to 3 symbolic non-negative ints; family 3 = one reserved/terminal/undeclared name as left-hand side or in a right-hand side of the first or a later rule; family 4 = unit-rule chains of depth 1..max_chain ending in an empty or a terminal rule, with or without the rule N0 : N0 N0 (self-derivation through a nullable sibling) and with or without terminal alternatives; strict_p symbolic",
             "assumptions": ["well-formedness oracle: direct definitions (nullable/productive fixpoints, transitive closure for self-derivation, reachability)"]}
 
 
@@ -157,6 +177,9 @@ def plan_C17(tier, seed):
         jobs += all_jobs("hC17.c", [g], b["all_len"], {"scenario": 2}, split_from=1)
     jobs += all_jobs("hC17.c", b["grammars"][:1], {"default": 2}, {"scenario": 2, "other": 1}, split_from=1)
     jobs.append({"harness": "hC17.c", "params": {"scenario": 1, "how": 0, "other": 1, "grammar": GIDX[b["grammars"][0]], "len": 1}, "weight": 20})
+    # inputs and grammars large enough for the growing arrays to be reallocated
+    jobs.append({"harness": "hC17.c", "params": {"scenario": 2, "grammar": GIDX["G1"], "base": 3, "edits": 0}, "weight": 500})
+    jobs.append({"harness": "hC17.c", "params": {"scenario": 3, "grammar": 0, "len": 0, "nterm": b.get("big_terms", 70)}, "weight": 300})
     wit = [{"harness": "hC17.c", "params": {"scenario": 1, "how": 0, "grammar": 0, "len": 0, "witness": 1}}]
     return {"jobs": jobs, "witness": wit, "bounds": b,
             "rule": "one state = (scenario: create / definition by callbacks, by text, defective, text with syntax error / parse of a token sequence under one of 24 configurations [/ with a second healthy object alive], index k of the failing libc allocation); k is symbolic in [0, A) where A is the number of allocations of the fault-free call measured in the same path",
@@ -173,9 +196,14 @@ def plan_C19(tier, seed):
         for op0 in range(7):
             jobs.append({"harness": src, "defs": D, "lib": lib, "params": {"mode": 1, "steps": b["os_steps"], "op0": op0}, "weight": 800})
             jobs.append({"harness": src, "defs": D, "lib": lib, "params": {"mode": 2, "steps": b["vlo_steps"], "op0": op0}, "weight": 800})
+    # inductive step of the C hash table: one operation from every state that satisfies the representation invariant
+    for (size, nel) in b["step_tables"]:
+        for op0 in range(3):
+            for el0 in range(nel):
+                jobs.append({"harness": "hC19.c", "defs": D, "lib": "containers", "params": {"mode": 3, "size": size, "elements": nel, "hmax": b["step_hmax"], "op0": op0, "el0": el0}, "weight": 2000})
     wit = [{"harness": "hC19.c", "defs": D, "lib": "containers", "params": {"mode": 2, "steps": 2, "witness": 1}}]
     return {"jobs": jobs, "witness": wit, "bounds": b, "defs": D, "cxx": True,
-            "rule": "one state = one history of `steps' container operations from a fresh container with symbolic operation kinds and sizes from {0,1,15,16,17,24} bytes (segment length 16 / initial VLO length 4 so that growth and segment changes occur); hash table: elements with symbolic hash values, initial size 0 so that every history crosses expansions; after every operation the full abstract contents are compared with the model",
+            "rule": "one state = one history of `steps' container operations from a fresh container with symbolic operation kinds and sizes from {0,1,15,16,17,24} bytes (segment length 16 / initial VLO length 4 so that growth and segment changes occur); hash table: elements with symbolic hash values, initial size 0 so that every history crosses expansions; after every operation the full abstract contents are compared with the model; inductive step (C hash table): one state = one table of the stated size whose slots are empty / deleted / one of the elements (chosen by the solver), constrained only by the representation invariant (each element at most once and reachable on its own probe sequence before the first empty slot, counters consistent, one empty slot), followed by one operation; hash values symbolic in 0..step_hmax",
             "assumptions": ["realloc always moves the block (VM and native wrapper)", "units verified: hashtab.c, objstack.c + objstack.h macros, vlobject.c + vlobject.h macros, allocate.c; hashtab.cpp, objstack.cpp, vlobject.cpp and the inline members of classes hash_table, os, vlo (clang++-14 -fno-exceptions, operator new never fails)"]}
 
 
@@ -229,8 +257,8 @@ TREE_ORACLE = "translation oracle: exhaustive enumeration of all derivations ove
 
 PROPS = {
     "C01": {"plan": plan_C01, "home_faults": False},
-    "C02": {"plan": simple_plan("C02", "hC02.c", "one state = (catalogue grammar, sentence of the stated length chosen by the solver, lookahead level); token attributes symbolic 64-bit, so 'TERM carries the attribute of its position' is a solver verdict", [TREE_ORACLE]), "home_faults": False},
-    "C03": {"plan": simple_plan("C03", "hC03.c", "one state = (catalogue grammar, sentence, lookahead level) with all parses requested; set equality denoted(DAG) = translations checked in both directions per path", [TREE_ORACLE, "inputs whose denoted set exceeds 700 trees per node are counted and skipped"]), "home_faults": False},
+    "C02": {"plan": simple_plan("C02", "hC02.c", "one state = (catalogue grammar, sentence of the stated length chosen by the solver, lookahead level); token attributes symbolic 64-bit, so 'TERM carries the attribute of its position' is a solver verdict", [TREE_ORACLE], sg_prop=2), "home_faults": False},
+    "C03": {"plan": simple_plan("C03", "hC03.c", "one state = (catalogue grammar, sentence, lookahead level) with all parses requested; set equality denoted(DAG) = translations checked in both directions per path", [TREE_ORACLE, "inputs whose denoted set exceeds 700 trees per node are counted and skipped"], sg_prop=3), "home_faults": False},
     "C04": {"plan": simple_plan("C04", "hC04.c", "one state = (grammar, sentence, lookahead x one_parse x parse_free given/NULL) x one ordering class of the symbolic rule costs that prune_to_minimal distinguishes; each assertion is decided by Z3 for all costs in the class", [TREE_ORACLE, "abstract-node costs symbolic in 0..maxcost, names unique per rule"]), "home_faults": False},
     "C06": {"plan": simple_plan("C06", "hRec.c", "one state = (grammar, non-sentence of the stated length, lookahead x recovery on/off x one_parse, recovery_match 1..maxmatch); attributes symbolic", ["viable-prefix oracle (spec/oracle.h) with `error' as an ordinary terminal"]), "home_faults": False, "label_prefix": "C06:"},
     "C07": {"plan": simple_plan("C07", "hRec.c", "one state = (grammar, token sequence, lookahead x recovery x one_parse, recovery_match); the tree is matched against the translations of every repaired input with the reported total of replaced tokens", [TREE_ORACLE, "repairs enumerated for at most 3 syntax_error calls per input"], {"only_errors": 0}), "home_faults": False, "label_prefix": "C07:"},
@@ -245,5 +273,5 @@ PROPS = {
     "C14": {"plan": plan_C14, "home_faults": True},
     "C15": {"plan": plan_C15, "home_faults": False},
     "C11": {"plan": plan_C11, "home_faults": False},
-    "C05": {"plan": simple_plan("C05", "hC05.c", "one state = (grammar, sentence, lookahead x one_parse x cost)", [TREE_ORACLE, "derivation count capped at 1000"]), "home_faults": False},
+    "C05": {"plan": simple_plan("C05", "hC05.c", "one state = (grammar, sentence, lookahead x one_parse x cost)", [TREE_ORACLE, "derivation count capped at 1000"], sg_prop=5), "home_faults": False},
 }
